@@ -215,7 +215,7 @@ func ruleC16(c *Ctx, r *Report) {
 				}
 			}
 			src := ""
-			if ex, ok := l.Coll.(*ssa.Extract); ok && ex.Index == 0 {
+			if ex, ok := peel(l.Coll).(*ssa.Extract); ok && ex.Index == 0 {
 				if hc, ok := ex.Tuple.(*ssa.Call); ok && hostsFn != nil && hc.Call.StaticCallee() == hostsFn {
 					src = "hosts"
 					// its argument: info.ConnectionStrings.Standard
